@@ -46,8 +46,8 @@ MUTANTS = [
     ('C04-lt3', ['C04', 'C02'], 'encoder.py', "if bufr_message.edition.value <= 3:", "if bufr_message.edition.value < 3:"),
     ('C04-no-overrun-check', ['C04'], 'decoder.py', "            elif nbits_unread < 0:\n                raise PyBufrKitError('Read exceeds declared section {} length: {} by {} bits'.format(\n                    section.get_metadata('index'), section.section_length.value, -nbits_unread))\n", ""),
     ('C04-pad-ones', ['C04', 'C02'], 'encoder.py', "bit_writer.write_bin('0' * nbits_padding_for_octet)", "bit_writer.write_bin('1' * nbits_padding_for_octet)"),
-    ('C05-no-plus-one', ['C05'], 'encoder.py', "            min_value, max_value = state.minmax(values)\n            nbits_diff = nbits_for_uint(max_value - min_value + 1)\n            # Subtract",
-     "            min_value, max_value = state.minmax(values)\n            nbits_diff = nbits_for_uint(max_value - min_value)\n            # Subtract"),
+    # ('C05-no-plus-one' was removed: nbits_for_uint already reserves the all-ones pattern, so dropping the '+ 1' still gives a sufficient width -
+    #  the old symbolic rule that 'detected' it demanded one particular width, more than C02 / C05 state)
     ('C05-alias-uncompressed', ['C05', 'C06', 'C07', 'C09'], 'coder.py', "            self.bitmap_links_all_subsets = [{} for _ in range(n_subsets)]", "            self.bitmap_links_all_subsets = [{}] * n_subsets"),
     ('C06-drop-reset', ['C06', 'C07'], 'coder.py', "        self.new_refvals = {}\n        self.decoded_descriptors = self.decoded_descriptors_all_subsets[idx_subset]",
      "        self.decoded_descriptors = self.decoded_descriptors_all_subsets[idx_subset]"),
@@ -106,13 +106,36 @@ MUTANTS = [
     ('C04-serialized-from-declared', ['C04', 'C11'], 'decoder.py', "            if info_only:\n                bufr_message.serialized_bytes = s[idx_start: idx_start + bufr_message.length.value]\n            else:\n",
      "            bufr_message.serialized_bytes = s[idx_start: idx_start + bufr_message.length.value]\n            if not info_only:\n"),
     ('C20-drop-next-value', ['C20'], 'dataprocessor.py', "                next_value().rstrip() + next_value().rstrip(),\n                next_value().strip(),", "                next_value().rstrip(),\n                next_value().strip(),"),
+    # --- fourth round: reverts of the repairs made in /repo (each must be reported by the property it was recorded under)
+    ('C08-203000-not-replayed', ['C08'], 'templatecompiler.py',
+     "        super(CompilerState, self).cancel_new_refvals()\n        self.add_statement(StateMethodCall(get_func_name()))\n",
+     "        super(CompilerState, self).cancel_new_refvals()\n"),
+    ('C01-missing-table-65', ['C01'], 'constants.py', "NUMERIC_MISSING_VALUES = [2 ** i - 1 for i in range(256)]", "NUMERIC_MISSING_VALUES = [2 ** i - 1 for i in range(65)]"),
+    ('C07-recall-last-bitmap', ['C07'], 'coder.py',
+     "        self.build_bitmapped_descriptors(self.bitmap)\n        return self.bitmap\n",
+     "        self.next_bitmapped_descriptor = functools.partial(next, iter(self.bitmapped_descriptors))\n        return self.bitmap\n"),
+    ('C05-nul-column', ['C05'], 'decoder.py',
+     "        # special cases: all missing or all equals\n        if min_value is None or nbits_diff == 0:\n            if nbits_diff != 0:\n                raise PyBufrKitError('{}: nbits_diff must be zero for compressed '\n                                     'values that are all missing or equal'.format(descriptor))\n            for decoded_values in state.decoded_values_all_subsets:\n                decoded_values.append(min_value)\n        else:\n            # A minimum of all zero octets",
+     "        if min_value == b'\\0' * nbytes_min_value:\n            min_value = b''\n        # special cases: all missing or all equals\n        if min_value is None or nbits_diff == 0:\n            if nbits_diff != 0:\n                raise PyBufrKitError('{}: nbits_diff must be zero for compressed '\n                                     'values that are all missing or equal'.format(descriptor))\n            for decoded_values in state.decoded_values_all_subsets:\n                decoded_values.append(min_value)\n        else:\n            # A minimum of all zero octets"),
+    ('C20-stale-compiled-templates', ['C20'], 'decoder.py',
+     "                        if getattr(decoder, 'compiled_template_manager', None):\n                            decoder.compiled_template_manager.cache.clear()\n", ""),
+    ('C11-foreign-category-11', ['C11'], 'decoder.py',
+     "                    except PyBufrKitError as e:\n                        # Data category 11 does not oblige",
+     "                    except ZeroDivisionError as e:\n                        # Data category 11 does not oblige"),
+    ('C12-negative-rest', ['C12', 'C04'], 'decoder.py', "                if nbits_rest < 0:\n", "                if nbits_rest < -10 ** 9:\n"),
+    ('C13-wired-before-wiring', ['C13'], 'templatedata.py',
+     "        if self._is_wired:\n            return\n",
+     "        if self._is_wired:\n            return\n        self._is_wired = True\n"),
+    ('C16-first-repetition-only', ['C16'], 'dataquery.py',
+     "                sub_nodes = self.filter_for_nodes(member_nodes, path_component)\n                if not sub_nodes:\n                    continue\n",
+     "                first = self.filter_for_indices(node.members[:node.descriptor.n_members], path_component)\n                sub_nodes = [member_nodes[k] for k in first]\n                if not sub_nodes:\n                    continue\n"),
 ]
 
 # (id, checks that must stay silent, file, old, new)
 TWINS = [
     ('T-decoder-one-line', ['C01', 'C02', 'C03', 'C05'], 'decoder.py',
      "        if value is not None:\n            if refval:\n                value += refval\n            if scale_powered != 1:\n                value /= scale_powered\n        state.decoded_values.append(value)",
-     "        if value is not None:\n            value = (value + refval) / scale_powered\n        state.decoded_values.append(value)"),
+     "        if value is not None:\n            value = value + refval if refval else value\n            value = value / scale_powered if scale_powered != 1 else value\n        state.decoded_values.append(value)"),
     ('T-width-arg-reordered', ['C02', 'C05'], 'encoder.py', "            nbits_diff = nbits_for_uint(max_value - min_value + 1)\n            # Now subtract", "            nbits_diff = nbits_for_uint(1 + max_value - min_value)\n            # Now subtract"),
     ('T-missing-ge2', ['C01', 'C19', 'C05'], 'bitops.py', "if nbits > 1 and value", "if nbits >= 2 and value"),
     ('T-uint-always', ['C19', 'C02', 'C03'], 'bitops.py', "fmt_string = ('uintbe:{}' if nbits % NBITS_PER_BYTE == 0 else 'uint:{}').format(nbits)", "fmt_string = 'uint:{}'.format(nbits)"),
@@ -133,7 +156,6 @@ TWINS = [
     ('T-parser-state-test', ['C15'], 'dataquery.py', "            elif c == '@':  # start of subset specifier\n                if self.current_state == STATE_START_PARSING:\n                    self.current_state = STATE_START_SUBSET\n                else:\n                    raise unexpected_char_error(c, self.pos)",
      "            elif c == '@':  # start of subset specifier\n                if self.current_state != STATE_START_PARSING:\n                    raise unexpected_char_error(c, self.pos)\n                self.current_state = STATE_START_SUBSET"),
     ('T-scanner-advance-var', ['C11', 'C12'], 'decoder.py', "            idx_start += len(bufr_message.serialized_bytes)\n\n            if matched:", "            n_consumed = len(bufr_message.serialized_bytes)\n            idx_start = idx_start + n_consumed\n\n            if matched:"),
-    ('T-wire-flag-first', ['C13', 'C06', 'C09'], 'templatedata.py', "        if self._is_wired:\n            return\n        else:\n            self._is_wired = True", "        if self._is_wired:\n            return\n        self._is_wired = True"),
     ('T-cache-key-named', ['C08', 'C13', 'C12'], 'templatecompiler.py', "        key_of_compiled_template = (\n            tuple(template.original_descriptor_ids),\n            table_group.key\n        )",
      "        ids = tuple(template.original_descriptor_ids)\n        key_of_compiled_template = (ids, table_group.key)"),
     ('T-bitmap-reuse-flag', ['C07', 'C08'], 'coder.py', "                state.most_recent_bitmap_is_for_reuse = True\n                state.bitmap_definition_state = BITMAP_WAITING_FOR_BIT\n                state.n_031031 = 0\n\n            elif descriptor.id == 237000:",
